@@ -270,7 +270,9 @@ def job_beam(cfg):
         Ka, Kb = a.Get_K_C_M_F()[0].toarray(), b.Get_K_C_M_F()[0].toarray()
         Tf = np.array(T, dtype=float)
         e = float(np.abs(Kb - Tf @ Ka @ Tf.T).max() / np.abs(Ka).max())
-        return e > 1e-8, {"E": Ef, "relative_error_K_inclined_vs_rotated_K_along_x": e}
+        Ma, Mb = a.Get_K_C_M_F()[2].toarray(), b.Get_K_C_M_F()[2].toarray()
+        em = float(np.abs(Mb - Tf @ Ma @ Tf.T).max() / np.abs(Ma).max())
+        return e > 1e-8 or em > 1e-8, {"E": Ef, "relative_error_K_inclined_vs_rotated_K_along_x": e, "relative_error_M_inclined_vs_rotated_M_along_x": em}
 
     kmax = Fraction(int(float(np.abs(np.asarray(farr_shadow(dense(Kx)))).max())) + 1)
     compare(res, f"{key}: K(inclined) = T K(along x) T^T", dense(Ki), facade._matmul(facade._matmul(T, dense(Kx)), T.T), pcs, replay, TOL * kmax, key=f"{key} stiffness")
